@@ -67,6 +67,13 @@ Theorem code_decay_chain_is_tree_path : forall t tr x p fuel, wf_ids t -> tree_o
   gen_list_decay_chain_ids fuel t x = Ok p.
 Proof. exact gen_decay_chain_is_tree_path. Qed.
 
+(** closed form of __get_boost_chain_ids (kinematics/lorentz.py; the frames compute_boost_chain boosts through, in order):
+    the path from the root of the isobar tree down to the state, without the root edge *)
+Theorem code_boost_chain_is_tree_path : forall t tr x p fuel, wf_ids t -> tree_of_topo t = Some tr ->
+  gen_assert_isobar_topology t = Ok tt -> path_up tr x = Some p -> (length p < fuel)%nat ->
+  gen_get_boost_chain_ids fuel t x = Ok (rev (removelast p)).
+Proof. exact gen_boost_chain_is_tree_path. Qed.
+
 (** Instance theorem (re-checked on every run against the topologies qrules creates NOW, plus renumbered variants):
     on each of them the translated helpers agree, at every node, with the hand model Kin.v that the C07 theorems are
     about (attached final states, sibling, opposite-helicity flag, parent), and assert_isobar_topology accepts it. *)
@@ -109,4 +116,5 @@ Print Assumptions code_boost_chain_is_reversed_decay_chain.
 Print Assumptions code_helpers_refine_Kin.
 Print Assumptions code_refinement_by_computation.
 Print Assumptions code_decay_chain_is_tree_path.
+Print Assumptions code_boost_chain_is_tree_path.
 Print Assumptions code_helpers_agree_with_Kin_on_current_topologies.
